@@ -32,6 +32,13 @@ CLAIMED = {
          "running engine each run; ALL 107648 real lookups and all dumped tables compared with the specification evaluated in Coq "
          "(exhaustive), plus random full-board occupancies.",
          TB + "OnceLock tables modelled as eager values.", "Coq proof (finite sweep by vm_compute lifted to all occupancies) + exhaustive correspondence"),
+ "C07": ("Theorems C07_parse (every string the independent rank-by-rank reader SpecFen.parse accepts is loaded by the modelled character loop "
+         "without panic into a board with exactly the described pieces, side, rights, en-passant file and counters, well-formed bitboards, the "
+         "from-scratch key and an undo record consistent with the en-passant file), C07_behaves (legal moves, successors and key depend only on "
+         "that content, not on how the board came about), C07_abs_core. Tie: generated structurally valid FENs (rights subsets, ep both sides, clocks "
+         "0..150, move numbers 1..6000, 4- and 6-field) full state engine vs model vs the independent reader; played positions written as FEN and "
+         "reloaded: state, legal moves, successors compared. PARTIAL: ASCII only.",
+         TB, "Coq proof (string-level refinement of the reader against an independent spec reader) + FEN correspondence"),
  "C08": ("Theorems C08_accept / C08_reject / C08_reject_keeps (all-or-nothing, independent of the earlier session), C08_find_move (a string "
          "is accepted exactly when it is the notation of a legal move), C08_notation_inj, C08_tokens_* (slicing), over the model of "
          "parse_position / load_position / the command loop. Tie: sessions over the pipe with the guarded verifdump command, full state vs model.",
@@ -79,7 +86,6 @@ PENDING = {
  "C04": "proof file proofs/BoardProofs.v (key invariance) still being completed in this revision; keys are compared at every node of the board correspondence",
  "C01": "proof of the move generator against spec/Rules.v not finished in this revision; the model-vs-engine and model-vs-spec comparison already runs inside the C02-C04 correspondence (see DESIGN.md)",
  "C03": "refinement proof make_move |= Rules.apply not finished in this revision; bookkeeping is compared engine vs model vs spec on every walk (see DESIGN.md)",
- "C07": "spec reader and parse theorem not built yet in this revision; the FEN model is exercised by every correspondence case",
  "C12": "mate-level theorems with the cache on not built yet in this revision",
 }
 
